@@ -301,7 +301,7 @@ Proof.
   intros (W1 & W2 & W3). unfold Backend.out, step, set_backend.
   destruct (ctx s t) as [|[old l] k] eqn:E; simpl; [discriminate|].
   assert (H : isinst R old = true) by (apply (W3 t old l); rewrite E; now left).
-  rewrite H. simpl. discriminate.
+  rewrite H. simpl. destruct e; discriminate.
 Qed.
 
 Lemma exit_restores s t e old l k : wf R s -> ctx s t = (old, l) :: k ->
@@ -312,6 +312,18 @@ Proof.
   split.
   - unfold cur, current_backend. rewrite nxt_tls. simpl. rewrite E, H, Nat.eqb_refl. reflexivity.
   - rewrite nxt_ctx, Nat.eqb_refl, E. reflexivity.
+Qed.
+
+(* leaving a context by an exception of its body runs the same restore as leaving it normally (one
+   try/finally, no except clause); the only difference is what the `with` statement does afterwards:
+   the exception propagates (OReraised) instead of execution continuing (ODone).  Holds by computation:
+   the state transition of Exit_ does not look at the flag *)
+Lemma exit_exception_same_restore s t :
+  nxt s (Exit_ t true) = nxt s (Exit_ t false) /\
+  out s (Exit_ t true) = match out s (Exit_ t false) with ODone => OReraised | o => o end.
+Proof.
+  unfold Backend.nxt, Backend.out, step. destruct (ctx s t) as [|[old l] k]; [split; reflexivity|].
+  destruct (set_backend R c (with_ctx s t k) t (SInst old) (if keep_flag R then l else false)); split; reflexivity.
 Qed.
 
 (* ------------------------------------------------------------ P3: restore *)
